@@ -229,6 +229,53 @@ func gen(rng *rand.Rand, w *vh.World, repo string, n int) tcase {
 	return tc
 }
 
+// childOnlyAsBlob: "every ... child manifest it references already exists in that same repository".  The bytes of a
+// manifest the registry has refused (its layer is missing), and bytes that are no manifest at all, are uploaded
+// through the blob API - which validates nothing - and an index then lists them as its children.  The children were
+// never manifests of the repository: the index is refused.  (Recorded finding K12: the reference check of an index
+// asks the blob store.)
+func childOnlyAsBlob(r *vh.Run, i int) {
+	kind := []vh.StoreKind{vh.Mem, vh.Dir}[i%2]
+	root := ""
+	if kind != vh.Mem {
+		root = r.TempDir("c04c")
+		defer vh.RemoveAll(root)
+	}
+	srv := vh.New(vh.Conf(kind, root, vh.Neutral))
+	defer srv.Close()
+	wit := map[string]any{"trial": i, "store": kind.String()}
+	cfg := []byte(fmt.Sprintf("child config %d", i))
+	vh.Do(srv, vh.Req{Method: "POST", URL: "/v2/k/blobs/uploads/?digest=" + vh.DigestOf("sha256", cfg), Body: cfg})
+	missing := vh.DigestOf("sha256", []byte(fmt.Sprintf("layer nobody pushed %d", i)))
+	m := []byte(fmt.Sprintf(`{"schemaVersion":2,"mediaType":%q,"config":{"mediaType":%q,"digest":%q,"size":%d},"layers":[{"mediaType":%q,"digest":%q,"size":7}]}`, vh.MTImage, vh.MTConfig, vh.DigestOf("sha256", cfg), len(cfg), vh.MTLayer, missing))
+	md := vh.DigestOf("sha256", m)
+	if st := vh.Do(srv, vh.Req{Method: "PUT", URL: "/v2/k/manifests/" + md, H: map[string]string{"Content-Type": vh.MTImage}, Body: m}).Status; st < 400 || st >= 500 {
+		r.Violation("invalid-accepted:missing-layer", fmt.Sprintf("an image whose layer is missing was answered %d", st), wit)
+		return
+	}
+	children := [][]byte{m}
+	if i%4 >= 2 {
+		children = append(children, []byte(fmt.Sprintf("this is no manifest at all %d", i)))
+	}
+	var descs []string
+	for _, c := range children {
+		if st := vh.Do(srv, vh.Req{Method: "POST", URL: "/v2/k/blobs/uploads/?digest=" + vh.DigestOf("sha256", c), Body: c}).Status; st != 201 {
+			r.Inconclusive("childOnlyAsBlob: blob upload refused")
+			return
+		}
+		descs = append(descs, fmt.Sprintf(`{"mediaType":%q,"digest":%q,"size":%d}`, vh.MTImage, vh.DigestOf("sha256", c), len(c)))
+	}
+	x := []byte(fmt.Sprintf(`{"schemaVersion":2,"mediaType":%q,"manifests":[%s]}`, vh.MTIndex, strings.Join(descs, ",")))
+	rs := vh.Do(srv, vh.Req{Method: "PUT", URL: "/v2/k/manifests/bundle", H: map[string]string{"Content-Type": vh.MTIndex}, Body: x})
+	r.Count("child_only_as_blob_trials", 1)
+	wit["status"] = rs.Status
+	if rs.Status < 400 {
+		g := vh.Do(srv, vh.Req{Method: "GET", URL: "/v2/k/manifests/bundle", H: map[string]string{"Accept": vh.MTImage}})
+		wit["negotiated_get_status"] = g.Status
+		r.Violation("K12:invalid-accepted:child-present-only-as-blob", fmt.Sprintf("%s store: an index whose %d children exist in the repository only as blobs uploaded through the blob API (one is a manifest the registry itself refused for a missing layer) was answered %d; GET of the tag accepting an image manifest now answers %d with the never-validated child", kind, len(children), rs.Status, g.Status), wit)
+	}
+}
+
 func runHistory(r *vh.Run, i int) {
 	rng := r.Rand(i)
 	kind := []vh.StoreKind{vh.Mem, vh.Dir}[i%2]
@@ -425,9 +472,12 @@ func main() {
 	r := vh.Start()
 	n := r.N(200, 8000)
 	vh.Parallel(n, 16, func(i int) { runHistory(r, i) })
+	nk := r.N(8, 80)
+	vh.Parallel(nk, 8, func(i int) { childOnlyAsBlob(r, i) })
+	r.Require("child_only_as_blob_trials", int64(nk*3/4))
 	r.Require("histories", int64(n))
 	r.Require("accepted", 300)
 	r.Require("refused", 300)
 	r.RequireDistinct("classes", 40)
-	r.Finish("histories of 25-45 manifest pushes: valid manifests and 14 mutation classes (truncated, references with a malformed digest, not JSON, unsupported / parameterised / absent / inconsistent Content-Type, shape inconsistent with type, hostile reference, digest mismatch in path or parameter, extra or missing references, references only in another repository) into empty, populated and referrer-heavy repositories, both stores; complete snapshot compared after every push; a case is one push, distinct = (class, repository state, by tag/digest)", "pushes", "classes")
+	r.Finish("histories of 25-45 manifest pushes: valid manifests and 14 mutation classes (truncated, references with a malformed digest, not JSON, unsupported / parameterised / absent / inconsistent Content-Type, shape inconsistent with type, hostile reference, digest mismatch in path or parameter, extra or missing references, references only in another repository) into empty, populated and referrer-heavy repositories, both stores; complete snapshot compared after every push; plus directed trials in which the children of an index exist only as blobs uploaded through the blob API (recorded finding K12); a case is one push, distinct = (class, repository state, by tag/digest)", "pushes", "classes")
 }
